@@ -121,7 +121,9 @@ Section Bodies.
   Variable v : version.
 
   Definition m_update : list geffect :=
-    [al (Check RTracesNotArray); al (Check RDataNotArray); al (Check RRowMismatch)]
+    [al (Check RTracesNotArray); al (Check RDataNotArray);
+     (* D18 (80fe517): traces, data = asarray(traces), asarray(data) - ndarray subclasses are handled as their plain content *)
+     al (Mark (GCall "asarray")); al (Mark (GCall "asarray")); al (Check RRowMismatch)]
     ++ (if has_ndim_check v then [al (Check RTracesNot2D)] else [])
     ++ [al (Implicit REmptyBatch)]
     ++ (if has_rollback v then [al Snap] else [])
